@@ -144,6 +144,8 @@ pub enum Op {
         repl: String,
         n: usize,
     },
+    /// F11: simulated time passes (no real sleeping) before the next operation.
+    ClockAdvance { ms: u64 },
     /// Legal but unusual: `Debug`-format the object (and the thread's live iterators) in
     /// the middle of a history. The text is not compared; later results must not change.
     DebugFmt { slot: usize },
@@ -183,6 +185,17 @@ pub struct Crash {
     pub step: u64,
 }
 
+/// F11: the simulated clock jumps forward by `ms` at the `step`-th hook hit inside sub-call
+/// `poll` of operation `op` of thread `thread`.
+#[derive(Clone, Debug, PartialEq, Eq, Serialize, Deserialize)]
+pub struct ClockJump {
+    pub thread: usize,
+    pub op: usize,
+    pub poll: usize,
+    pub step: u64,
+    pub ms: u64,
+}
+
 #[derive(Clone, Debug, PartialEq, Eq, Serialize, Deserialize)]
 pub struct RunSpec {
     pub seed: u64,
@@ -212,6 +225,8 @@ pub struct RunSpec {
     /// (with fresh threads: after its OS thread is gone and its thread-local destructors ran).
     #[serde(default)]
     pub late: Option<Vec<Option<usize>>>,
+    #[serde(default)]
+    pub jumps: Vec<ClockJump>,
 }
 
 impl RunSpec {
@@ -289,6 +304,8 @@ pub struct RunRecord {
     pub thread_exits_joined: u64,
     #[serde(default)]
     pub late_starts: u64,
+    #[serde(default)]
+    pub clock_jumps: u64,
     pub recompiles: u64,
     pub stalled: u64,
     pub cold: bool,
